@@ -4,6 +4,7 @@
      Q <id> getval <0|1> <enc>  -> same for ILLget_value
      Q <id> print <p/q>      -> A <id> <enc>
      Q <id> lpwrite + SLP block            -> A <id> <enc line>*       (IO/LpWrite.write_lp)
+     Q <id> lprt + SLP block               -> A <id> <wf_lpb 0|1> <OK|ERR|FLT|FUEL> <equiv_by_name P (read_lp (write_lp P))>
      Q <id> mpswrite + MLP block           -> A <id> <enc line>*       (IO/MpsWrite.write_mps)
      Q <id> lpread <0|1> <enc text> + (NONE | SLP block of the library's result) -> A <id> <OK|ERR|FLT|FUEL> <agree> <ncols> <nrows>
 *)
@@ -183,6 +184,15 @@ let () =
            let p = (match next_tokens ic with Some h -> read_slp_hdr ic h | None -> failwith "SLP expected") in
            let ls = write_lp !sentinel p in
            Printf.printf "A %s %s\n" id (String.concat " " (List.map (fun l -> enc (string_of_chars l)) ls))
+         | "lprt", [] ->
+           (* the statement of C08_lp_roundtrip evaluated on one problem: <wf_lpb> <outcome of read_lp_res (write_lp P)> <equiv_by_name P P'> *)
+           let p = (match next_tokens ic with Some h -> read_slp_hdr ic h | None -> failwith "SLP expected") in
+           let wf = wf_lpb !sentinel p in
+           let r = read_lp_res true !sentinel (write_lp !sentinel p) in
+           let tag, eqv = (match r with
+             | PrOk p' -> ("OK", equiv_by_name (to_nlp p) (to_nlp p'))
+             | PrErr -> ("ERR", false) | PrFlt -> ("FLT", false) | PrFuel -> ("FUEL", false)) in
+           Printf.printf "A %s %s %s %s\n" id (if wf then "1" else "0") tag (string_of_bool eqv)
          | "mpswrite", [] ->
            let p = (match next_tokens ic with Some h -> read_mlp_hdr ic h | None -> failwith "MLP expected") in
            let ls = write_mps !sentinel p in
